@@ -5,6 +5,7 @@
    result_hist s : (seq, numTries, ok) of every return of outFn inside the retry loop, newest first
    fseq f        : the sequence number of a failed_hist entry *)
 From Verif Require Import Base.Sx Model.Batcher Proofs.Batcher Gen.BatcherGen.
+From Verif Require Model.C09Route Proofs.C09Route.
 From Coq Require Import List ZArith.
 Import ListNotations.
 Local Open Scope Z_scope.
@@ -119,3 +120,69 @@ Proof.
   split; [vm_compute; reflexivity|]. split; [vm_compute; reflexivity|].
   eexists. vm_compute. repeat split; reflexivity.
 Qed.
+
+(* ==== E. the real output plugins behind a Router (sub-model which = 2, Model/C09Route.v) =========================
+   Specification of WHICH way a batch goes as a function of (plugin kind, dead queue?, retry count, fatal / strict /
+   split_batch flags, answer history of the far end); harness/c09/route.go runs the real elasticsearch, http, splunk,
+   loki, socket, clickhouse and gelf outputs against scripted far ends and the extracted specification judges, per event,
+   (commits by the main output, times handed to the dead queue, commits by the dead queue).
+   batches nb c s 0 = Some (ws, reqs): the nb batches of the case go the ways ws (way, numTries at the end).
+   ev_obs w = (m, h, d): what every event of a batch that goes way w shows. *)
+Module Route.
+Import Verif.Model.C09Route Verif.Proofs.C09Route.
+
+(* every event is committed exactly once and by exactly one path; it is handed to the dead queue iff the dead queue
+   commits it, and only when a dead queue is configured *)
+Theorem c09_route_each_event_exactly_once :
+  forall c s ws reqs,
+    batches (nbatch c) c s 0 = Some (ws, reqs) ->
+    length ws = nbatch c /\
+    Forall (fun wt => let '(m, h, d) := ev_obs (fst wt) in
+                      m + d = 1 /\ (m = 0 \/ d = 0) /\ h = d /\ (d = 1 -> dq c = true)) ws.
+Proof. exact route_each_event_exactly_once. Qed.
+Print Assumptions c09_route_each_event_exactly_once.
+
+(* a batch is given up only with a non-negative retry count and after exactly retry + 2 failed calls of out()
+   (numTries = retry + 1 at the give-up); it goes to the dead queue iff one is configured *)
+Theorem c09_route_given_up_only_after_retries :
+  forall c s ws reqs w t,
+    batches (nbatch c) c s 0 = Some (ws, reqs) -> In (w, t) ws -> w = WDead \/ w = WErr ->
+    0 <= retry c /\ Z.of_nat t = retry c + 1 /\ (w = WDead <-> dq c = true).
+Proof. exact route_given_up_only_after_retries. Qed.
+Print Assumptions c09_route_given_up_only_after_retries.
+
+(* with a dead queue (and without `strict`) no Fatal-level entry is logged *)
+Theorem c09_route_no_fatal_with_dead_queue :
+  forall c s ws reqs,
+    batches (nbatch c) c s 0 = Some (ws, reqs) -> dq c = true -> strict_on c = false ->
+    sumZ (map (fun wt : way * nat => fatal_of c (fst wt)) ws) = 0.
+Proof. exact route_no_fatal_with_dead_queue. Qed.
+Print Assumptions c09_route_no_fatal_with_dead_queue.
+
+(* the specification's observable satisfies the executable predicate whose failure is the Violates verdict *)
+Theorem c09_route_model_one_way :
+  forall c s o, route_model c s = Some o -> one_way_ok c o = true.
+Proof. exact route_model_one_way. Qed.
+Print Assumptions c09_route_model_one_way.
+
+(* the judge says Agree only about an observable in which every event went exactly one way *)
+Theorem c09_route_agree_means_one_way :
+  forall case obs c s,
+    rcase_of_sx case = Some (c, s) -> c09_route_run case obs = Agree -> one_way_ok c obs = true.
+Proof. exact route_agree_means_one_way. Qed.
+Print Assumptions c09_route_agree_means_one_way.
+
+(* non-vacuity: elasticsearch, dead queue, retry 1, two batches of two events; answers 500 500 500 (given up into the dead
+   queue after 3 calls), then 400 (dropped, committed by the main output).  And the observable of the seeded regression
+   (400 answered, events handed to the dead queue AND committed by the main output) is rejected. *)
+Definition nv_rcfg : rcfg :=
+  {| kind := 0; dq := true; retry := 1; fatal := false; strict := false; split := false; bsize := 2; nbatch := 2 |}.
+Example c09_route_nonvacuous :
+  batches 2 nv_rcfg {| pre := [500; 500; 500; 400]; tail := 200 |} 0 = Some ([(WDead, 2%nat); (WDrop, 0%nat)], 4%nat) /\
+  route_model nv_rcfg {| pre := [500; 500; 500; 400]; tail := 200 |} =
+    Some (SL [SZ 4; SZ 0; SL [SL [SZ 0; SZ 1; SZ 1]; SL [SZ 0; SZ 1; SZ 1]; SL [SZ 1; SZ 0; SZ 0]; SL [SZ 1; SZ 0; SZ 0]]]) /\
+  one_way_ok nv_rcfg (SL [SZ 1; SZ 0; SL [SL [SZ 1; SZ 1; SZ 1]; SL [SZ 1; SZ 1; SZ 1]; SL [SZ 1; SZ 0; SZ 0]; SL [SZ 1; SZ 0; SZ 0]]]) = false /\
+  batches 1 {| kind := 0; dq := false; retry := -1; fatal := true; strict := false; split := true; bsize := 3; nbatch := 1 |}
+          {| pre := [503; 413; 200; 413; 413]; tail := 200 |} 0 = Some ([(WDrop, 1%nat)], 5%nat).
+Proof. vm_compute. repeat split; reflexivity. Qed.
+End Route.
